@@ -160,6 +160,32 @@ def execInsert (kinds : List Kind) (ps : List Params) : Except Err (List (List V
   | .error e => .error e
   | .ok (curs, counts) => .ok (curs.map (storeInsert (kinds.zip ds)), counts)
 
+/-- `insert(t).values([row0, row1, ...])` (crud._extend_values_for_multiparams): every row
+    of the multi-row VALUES gets its own binds, so a later row that leaves a column out
+    gets that column's default and an explicit None stays NULL; the callables run in row
+    order.  (A later row omitting a column that has no Python / SQL default is a
+    CompileError in the code: `valueRequired` here.) -/
+def runRowsOwn (kinds : List Kind) (first : List Bool) : List Nat → List Params →
+    Except Err (List (List Val) × List Nat)
+  | counts, [] => .ok ([], counts)
+  | counts, p :: ps =>
+    -- the statement's columns are those of the first row; within them a row decides itself
+    let keys := List.zipWith (fun f own => f && own) first (keysOf p)
+    let bad := (List.zipWith (fun (fk : Bool × Kind) own =>
+        fk.1 && !own && (match fk.2 with | .none | .server _ => true | _ => false))
+        (first.zip kinds) (keysOf p)).any id
+    if bad then .error .valueRequired else
+    let ds := disps kinds keys
+    match rowParams kinds ds counts (List.zipWith (fun k v => if k then v else none) keys p) with
+    | .error e => .error e
+    | .ok (cur, counts') =>
+      match runRowsOwn kinds first counts' ps with
+      | .error e => .error e
+      | .ok (rest, counts'') => .ok (storeInsert (kinds.zip ds) cur :: rest, counts'')
+
+def execInsertMulti (kinds : List Kind) (ps : List Params) : Except Err (List (List Val) × List Nat) :=
+  runRowsOwn kinds (keysOf (ps.headD [])) (kinds.map (fun _ => 0)) ps
+
 /-- UPDATE: parameter set `i` updates the row with old values `olds[i]` -/
 def execUpdate (onupd : List Kind) (ps : List Params) (olds : List (List Val)) :
     Except Err (List (List Val) × List Nat) :=
